@@ -496,8 +496,8 @@ class UnchangedOracle(Oracle):
         if status == "rejected":
             exc, msg = outcome.get("exc") or "", outcome.get("msg") or ""
             self.on_raise(sim, fr, exc, msg)
-            if eid:
-                e = RJ.BY_ID[eid]
+            e = RJ.BY_ID.get(eid) if eid else None  # a replay file may name an entry that has left the catalogue since
+            if e is not None:
                 cause = RJ.cause_of(exc, msg)
                 tok_ok = True
                 if op.get("want_token") and cause == "wallet_short":
